@@ -38,7 +38,7 @@ def run_seed(sid):
 
 def main():
     seeds = sys.argv[1:] or sorted(os.listdir(os.path.join(VERIF, "seeded")))
-    with ThreadPoolExecutor(max_workers=3) as pool:
+    with ThreadPoolExecutor(max_workers=int(os.environ.get("SWEEP_WORKERS", "3"))) as pool:
         for sid, res in pool.map(run_seed, seeds):
             d = os.path.join(VERIF, "seeded", sid)
             am = {}
